@@ -1169,6 +1169,8 @@ LiqSituations(pre, e, post) ==
       dn_  == y.liq \prec x.liq
   IN UNION {
      Sit("liq.price_below_range", pool.tick < y.lo), Sit("liq.price_in_range", y.lo <= pool.tick /\ pool.tick < y.up), Sit("liq.price_above_range", y.up <= pool.tick),
+     Sit("liq.by_token_amounts.price_exactly_on_lower_bound", e.name = "increase_liquidity_by_token_amounts_v2" /\ pool.sqrtPrice \doteq P(post, y.lo)),
+     Sit("liq.by_token_amounts.price_exactly_on_upper_bound", e.name = "increase_liquidity_by_token_amounts_v2" /\ pool.sqrtPrice \doteq P(post, y.up)),
      Sit("liq.price_exactly_on_lower_bound", pool.sqrtPrice \doteq P(post, y.lo)),
      Sit("liq.price_exactly_on_lower_bound_shifted", pool.sqrtPrice \doteq P(post, y.lo) /\ pool.tick = y.lo - 1),
      Sit("liq.price_exactly_on_upper_bound", pool.sqrtPrice \doteq P(post, y.up)),
@@ -1379,6 +1381,7 @@ C20Liquidity(pre, e, post) ==
    (W3) Position bundles: created empty, with exactly one bundle token, held by the named owner, without mint authority.
    (W7) Closing a position burns its token and closes the token account (and the Token-2022 position mint; an SPL mint stays, with
         supply 0); deleting a bundle likewise; a lock records the time and the (only) lock type in its lock config.
+   (W8) An instruction that is refused returns an error code; the program never aborts (panics) - except the migration, by design.
    (W6) SDK: collect_fees_quote / collect_rewards_quote on the state before an update_fees_and_rewards equal what the program then
         records as owed to the position (fees; rewards at the instruction's clock).
    (W4) migrate_repurpose_reward_authority_space: possible exactly once per old-layout pool; it clears the two repurposed
@@ -1506,6 +1509,8 @@ WiderOK(pre, e, post) ==
 
 \* what the wider specification says about a REFUSED instruction
 WiderFailed(pre, e) ==
+  \* (W8) a refusal is an error code, never an abort of the program (the one instruction that panics by design is the migration)
+  /\ Wider("W8.refusal_is_an_error_code_not_an_abort", ~e.panic \/ e.name = "migrate_repurpose_reward_authority_space")
   /\ IF e.name = "open_position_with_token_extensions" /\ ~e.probe /\ "wider" \in DOMAIN e.args
      THEN Wider("W1.token_extensions_open_never_refused_for_the_requirement", FALSE) ELSE TRUE
   /\ IF e.name = "migrate_repurpose_reward_authority_space" /\ Id(e, "whirlpool") \in DOMAIN pre.pool
@@ -1598,6 +1603,9 @@ C20UserQuoteOnRefusal(e) ==
 
 IxFailed(pre, e) ==
   /\ WiderFailed(pre, e)
+  \* the largest-liquidity computation returns for every state (C08: "... price exactly on a range bound"): the instruction may refuse
+  \* (price window, maxima, zero liquidity) with an error code, it never aborts
+  /\ IF e.name = "increase_liquidity_by_token_amounts_v2" THEN Chk("C08", "by_token_amounts_refuses_with_an_error_code", ~e.panic) ELSE TRUE
   /\ Chk("C20", "sdk_quote_on_failure", C20Quote(e))
   /\ Chk("C20", "sdk_user_level_quote_on_refusal", C20UserQuoteOnRefusal(e))
   /\ Chk("C10", "packaging_failed", C10Pack(pre, e))
